@@ -9,6 +9,13 @@ Definition sph_valid (h : sph) : Prop :=
   0 <= ver h < 8 /\ 0 <= ptype h < 2 /\ 0 <= shf h < 2 /\ 0 <= apid h <= 2047 /\
   0 <= sflags h < 4 /\ 0 <= scount h <= 16383 /\ 0 <= dlen h <= 65535.
 
+(* the three fields whose ranges the property names (enforced by the constructor and by pack()),
+   and the four that nothing validates *)
+Definition sph_in_range (h : sph) : Prop :=
+  0 <= apid h <= 2047 /\ 0 <= scount h <= 16383 /\ 0 <= dlen h <= 65535.
+Definition sph_rest_valid (h : sph) : Prop :=
+  0 <= ver h < 8 /\ 0 <= ptype h < 2 /\ 0 <= shf h < 2 /\ 0 <= sflags h < 4.
+
 Definition sph_word0 (h : sph) : Z := ver h * 8192 + ptype h * 4096 + shf h * 2048 + apid h.
 Definition sph_word1 (h : sph) : Z := sflags h * 16384 + scount h.
 
